@@ -126,6 +126,106 @@ def run_lifecycle(size, pacing):
     return box.get("r"), payload, bytes(received), not d.is_alive()
 
 
+def run_replaced_connection(size=512 * 1024):
+    """History: a passive (listening) connection is in the middle of send_data() to peer A, which has stopped reading; A
+    half-closes; the library closes that connection and listens again; peer B connects.  The send belongs to the connection
+    with A: it must report failure (or deliver everything to A) - never success with part of the bytes on B's connection.
+    Returns (result of send_data | 'raised:<type>' | None when it did not return, bytes A got, bytes B got, payload)."""
+    import secsgem.hsms as _hsms
+    port = free_port()
+    settings = _hsms.HsmsSettings(address="127.0.0.1", port=port, connect_mode=_hsms.HsmsConnectMode.PASSIVE)
+    conn = settings.create_connection()
+    connected = threading.Event()
+
+    def on_connected(event):
+        event["source"]._sock.setsockopt(socket.SOL_SOCKET, socket.SO_SNDBUF, 16384)      # a small send buffer keeps the payload small
+        connected.set()
+
+    conn.on_connected.register(on_connected)
+    conn.enable()
+    peers = []
+
+    def connect():
+        end = time.time() + 10 * H.scale()
+        while True:
+            sk = socket.socket(socket.AF_INET, socket.SOCK_STREAM)
+            sk.setsockopt(socket.SOL_SOCKET, socket.SO_RCVBUF, 8192)
+            sk.settimeout(2)
+            try:
+                sk.connect(("127.0.0.1", port))
+                peers.append(sk)
+                return sk
+            except OSError:
+                sk.close()
+                if time.time() > end:
+                    return None
+                time.sleep(0.02)
+
+    try:
+        peer_a = connect()
+        if peer_a is None or not connected.wait(5 * H.scale()):
+            return "setup-failed", b"", b"", b""
+        data = bytes((i * 7 + (i >> 8)) & 0xFF for i in range(4096)) * (size // 4096)
+        box = {}
+
+        def sender():
+            try:
+                box["r"] = conn.send_data(data)
+            except Exception as exc:  # noqa: BLE001
+                box["r"] = "raised:" + type(exc).__name__
+
+        th = threading.Thread(target=sender, daemon=True)
+        th.start()
+        got_a = bytearray()
+        try:
+            while len(got_a) < 16 * 1024:
+                got_a += peer_a.recv(65536)
+        except OSError:
+            pass
+        time.sleep(1.0)
+        peer_a.shutdown(socket.SHUT_WR)
+        peer_b = None
+        end = time.time() + 10 * H.scale()
+        while peer_b is None and time.time() < end:
+            try:
+                peer_b = socket.create_connection(("127.0.0.1", port), timeout=0.2)
+                peers.append(peer_b)
+            except OSError:
+                time.sleep(0.005)
+        got_b = bytearray()
+        for sk, buf, tmo in ((peer_b, got_b, 1.5), (peer_a, got_a, 0.5)):
+            if sk is None:
+                continue
+            sk.settimeout(tmo)
+            try:
+                while True:
+                    chunk = sk.recv(1 << 20)
+                    if not chunk:
+                        break
+                    buf += chunk
+            except OSError:
+                pass
+        th.join(20 * H.scale())
+        return (None if th.is_alive() else box.get("r")), bytes(got_a), bytes(got_b), data
+    finally:
+        for sk in peers:
+            try:
+                sk.close()
+            except OSError:
+                pass
+        t = threading.Thread(target=conn.disable, daemon=True)
+        t.start()
+        t.join(5)
+
+
+def free_port():
+    s = socket.socket()
+    s.bind(("127.0.0.1", 0))
+    p = s.getsockname()[1]
+    s.close()
+    return p
+
+
 @bounded("C10", "api-loopback")
 def bnd_loopback(tier, seed):
     fails = Fail()
@@ -157,6 +257,16 @@ def bnd_loopback(tier, seed):
                       "send_data returned True, the connection was then disabled, and the peer did not receive all bytes")
         if ok is None:
             fails.add("send-returns", {"size": size, "pacing": pacing, "lifecycle": True}, "send_data did not return although the peer had time to drain the payload (20 s + the reader's pace)")
+    # history: the connection is replaced while a send is in progress (D41)
+    n_eval += 1
+    distinct.add(("replaced-connection", 512 * 1024))
+    res, got_a, got_b, payload = run_replaced_connection()
+    if res is True and got_a != payload:
+        fails.add("success-means-delivered", {"history": "peer A stalls and half-closes during the send, the library listens again, peer B connects", "result": res,
+                                              "payload_bytes": len(payload), "bytes_arrived_at_the_peer_of_the_send": len(got_a), "bytes_arrived_at_the_next_peer": len(got_b)},
+                  "send_data returned True but the peer of this send did not receive all bytes (the rest went to the next connection)")
+    elif got_b and res != "setup-failed":
+        fails.add("no-bytes-on-another-connection", {"result": res, "bytes_arrived_at_the_next_peer": len(got_b)}, "bytes of a send begun on one connection were written to the next connection")
     return {"evaluations": n_eval, "distinct": len(distinct), "failures": list(fails),
-            "scope": "payloads 1 B .. 8 MiB (thorough 16 MiB) on loopback sockets, peer reading immediately / after a delay / in small chunks",
+            "scope": "payloads 1 B .. 8 MiB (thorough 16 MiB) on loopback sockets, peer reading immediately / after a delay / in small chunks; one history with the connection replaced during a send",
             "rule": "distinct = (payload sizes, reader pacing)", "samples": [{"sizes": [8388608], "pacing": [0.5, 65536]}]}
